@@ -329,6 +329,24 @@ func c55One(t *testing.T, rec *kit.Rec, e *vEnv, penv []string, base string, idx
 		rec.Case(fmt.Sprintf("%d/%s/%v", idx, c.Variant, c.Bad), false)
 		return
 	}
+	// the same backup once more with --skip-if-unchanged: whether or not a snapshot is written,
+	// unreadable items must still give status 3 (and readable-only sources status 0)
+	// (seeded change C55-1)
+	if idx%2 == 0 {
+		args2 := append([]string{}, args...)
+		args2 = append(args2, "--skip-if-unchanged")
+		_, se2, code2 := c55Run(rec.Env.Bin, base, penv, args2...)
+		if code2 != want {
+			rec.Violation(fmt.Sprintf("exit-status-skip-if-unchanged:expected-%d-got-%d", want, code2),
+				fmt.Sprintf("restic %s (second, identical run) with unreadable items %v: exit status %d, expected %d; stderr: %s", strings.Join(args2, " "), c.Bad, code2, want, tail(se2, 400)), desc)
+		}
+		if a2, err := e.Audit(); err == nil {
+			for id := range a2.Snaps {
+				known[id] = true
+			}
+		}
+		rec.Count("skip_if_unchanged_reruns", 1)
+	}
 	var man repokit.Manifest
 	if s := a.Snaps[fresh[0]]; s.Err == nil {
 		man, err = a.Manifest(s.Tree)
